@@ -237,13 +237,17 @@ def accessor(obj, ver, name):
         except AttributeError:
             return "not-available"
     if name == "mutate_json":
-        d = obj.as_json()
-        keys = list(d)
-        d[keys[0]] = "clobbered"
-        d.pop(keys[-1])
-        d.clear()
-        d2 = obj.as_json(sort=True, minimal=True)
-        d2["vectorString"] = None
+        # every option set returns a dictionary of the caller's own: edit each of them in every way a dictionary can be edited
+        for sort_ in (False, True):
+            for minimal_ in (False, True):
+                d = obj.as_json(sort=sort_, minimal=minimal_)
+                keys = list(d)
+                d[keys[0]] = "clobbered"
+                d["vectorString"] = None
+                d["source"] = "the caller"
+                d.pop(keys[-1])
+                d2 = obj.as_json(sort=sort_, minimal=minimal_)
+                d2.clear()
         return "mutated"
     raise ValueError(name)
 
